@@ -247,7 +247,9 @@ def gen_rec(tu, depth, allow_flex=False, force_struct=None, style='main'):
             it['alignas'] = 0
             cand = [s for s in SC.values() if s.align >= t.align and s.cname not in ('FNPTR',)]
             at = rng.choice(cand)
-            it['alignas_type'] = at.cname
+            # _Alignas(type-name) means _Alignas(_Alignof(type-name)): for arrays and structs that is NOT their size
+            form = rng.choice(['%s', '%s', '%s[3]', '%s[2][2]', 'struct { char c_; %s x_; }', 'union { %s x_; char c_[13]; }'])
+            it['alignas_type'] = form % at.cname
             it['alignas'] = at.align
         if it['alignas'] and rng.random() < 0.3:
             it['alignas_extra'] = [(rng.choice([0] + [a for a in (1, 2, 4, 8, 16, 32) if nat <= a <= it['alignas']]), rng.random() < 0.5)
